@@ -6,7 +6,7 @@ META = dict(
                'mmd_export_footnote_list_html, mmd_export_citation_list_html, mmd_export_glossary_list_html'],
     stubs=['writer.c footnote/citation/glossary_from_bracket -> contract stub (number = position in the used-notes stack, first use pushes)',
            'mmd_export_token_tree_html* -> no rendering, but can perform a nested first use while a list entry is printed',
-           'd_string_append_printf -> recorder of the integers spliced into href/id attributes', 'srand/rand -> uninterpreted function of the seed', 'd_string.c -> ds_model'],
+           'd_string_append_printf -> recorder of the integers spliced into href/id attributes', 'srand/rand -> uninterpreted function of the seed', 'd_string.c -> ds_null (output text discarded; anchors observed through the printf recorder)'],
     assumptions=['<= 3 notes, <= 3 calls, one nested first use'],
     outside=['numbering across a whole document tree walk, LaTeX \\\\autoref/\\\\label, captioned tables'],
 )
@@ -16,9 +16,9 @@ def harnesses(tier):
     for k, nm in enumerate(['footnote', 'citation', 'glossary']):
         for vn, (reuse, nest) in [('two', (0, 0)), ('reuse', (1, 0)), ('nested', (0, 1))]:
             hs.append(dict(name='c10_notes_%s_%s' % (nm, vn), src='c10/notes.c', defs=dict(KIND=k, SECOND_REUSE=reuse, NEST_AT=nest, DS_CAP=16, DS_NO_PRINTF=1),
-                           units=[HTML, 'repo:token.c', 'repo:stack.c', 'repo:object_pool.c', 'repo:char.c', 'common/ds_model.c'],
-                           pool_off=True, unwind=70, unwindset=['mmd_export_token_html:3', 'mmd_export_token_tree_html:3'], object_bits=12, timeout=1500, mem_gb=8, replay=False,
-                           bounds='2 explicit calls (%s)%s, any random seed base, extension bits RANDOM_FOOT/SMART/COMPLETE' % ('first use + re-use' if reuse else 'two first uses', ' + a nested first use while the list is printed' if nest else ''),
+                           units=[HTML, 'repo:token.c', 'repo:stack.c', 'repo:object_pool.c', 'repo:char.c', 'common/ds_null.c'],
+                           pool_off=True, unwind=12, unwindset=['mmd_export_token_html:3', 'mmd_export_token_tree_html:3', 'has.0:170', 'has.1:170', 'strlen.0:24'], object_bits=12, timeout=1500, mem_gb=8, replay=False,
+                           functional=True, bounds='2 explicit calls (%s)%s, any random seed base, extension bits RANDOM_FOOT/SMART/COMPLETE' % ('first use + re-use' if reuse else 'two first uses', ' + a nested first use while the list is printed' if nest else ''),
                            desc='%s anchors: call href == entry id, back-link == id of first call, entries 1..n, every used note listed' % nm))
     return hs
 
